@@ -15,6 +15,14 @@ CHECKS = {
     ),
 }
 
+CHECKS["C01"] = dict(
+    engine="E1-config-lattice",
+    technique="bounded-exhaustive configuration lattice (deviation bound iterated) x complete symmetric-direction basis, Richardson directional derivatives of the real integrator",
+    text="Every state of the enumerated configuration lattice (molecule, feature family, semilocal mode, spin, plan, interpolator, evaluators, spin mode, baselines, mixing, normalisation, grid, density matrix) is run through the real CiderNumInt.nr_rks/nr_uks on C libraries compiled from the working tree; tr(vmat E_ij) is compared with the Richardson-extrapolated derivative of excsum for ALL symmetric basis directions per spin (a complete basis, so vmat = grad E is decided for the state), plus symmetry of vmat and nelec against PySCF's own eval_rho.",
+    note="Bounded to molecules with nao<=7, positive-definite density matrices, deviation bound 1 (quick) / 2 (thorough) plus full products of the family/spin/mode/evaluator sub-lattices; finite-difference noise 1e-9 vs threshold 2e-7.",
+    design="5/C01",
+)
+
 NOT_YET = {}
 
 
